@@ -392,6 +392,16 @@ pub fn sweep(values_per_type: usize) -> (Vec<IoPlan>, Vec<(String, usize)>) {
             // the first read must see the record the caller's flag announces
             q.reads[0] = ReadSpec { ty: r0.ty, c: r0.c };
             plans.push(q);
+        } else if !p.rscript.is_empty() && p.sfaults.is_empty() && p.wscript.is_empty() && (p.stratum.contains("read_fail_once") || p.stratum.contains("read_eintr_full")) {
+            // a transient read error inside R, with a second record behind it: whatever the library does
+            // about the error (give up, or retry), it must not hand out bytes of the next record as R
+            let mut q = p.clone();
+            q.stratum = format!("{}+then_second_record", p.stratum);
+            let v2 = sweep_values(r0.ty, 3)[2].clone();
+            let v1 = sweep_values(r0.ty, 3)[1].clone();
+            q.records = vec![Rec { ty: r0.ty, c: r0.c, v: v1 }, Rec { ty: r0.ty, c: r0.c, v: v2 }];
+            q.reads = vec![p.reads[0].clone(), p.reads[0].clone()];
+            plans.push(q);
         } else if !p.wscript.is_empty() && p.sfaults.is_empty() && p.rscript.is_empty() && !matches!(p.wscript.last(), Some(Act::FailForever(_))) && p.wscript.len() % 4 == 1 {
             // a failed (or short) write of R, then a second record of the same type on the same stream
             let mut q = p.clone();
